@@ -143,7 +143,7 @@ func c01(r *core.Run) {
 	// ---- A3 ----------------------------------------------------------------
 	c01Pop(r, a, e)
 	// ---- H1 ----------------------------------------------------------------
-	c01Restart(r, a, root)
+	c01Restart(r, "H1", a, root)
 	// ---- F1/F2 -------------------------------------------------------------
 	c01Funnel(r, a, root)
 	// ---- F3 (shared with C06.R4) --------------------------------------------
@@ -1137,7 +1137,7 @@ func classifyGroupArg(arg ssa.Value, c ssa.CallInstruction, a *svcAnchors, match
 }
 
 // c01Restart: exclusion across start/stop/start cycles.
-func c01Restart(r *core.Run, a *svcAnchors, root []*ssa.Function) {
+func c01Restart(r *core.Run, rule string, a *svcAnchors, root []*ssa.Function) {
 	p := r.P
 	ops, _ := stateOps(root, a)
 	var started int64 = -1
@@ -1154,7 +1154,7 @@ func c01Restart(r *core.Run, a *svcAnchors, root []*ssa.Function) {
 		}
 	}
 	if shutdown == nil {
-		r.Unres("H1", "shutdown", "no function performs the stop transition")
+		r.Unres(rule, "shutdown", "no function performs the stop transition")
 		return
 	}
 	for _, op := range ops {
@@ -1170,7 +1170,7 @@ func c01Restart(r *core.Run, a *svcAnchors, root []*ssa.Function) {
 			}
 		}
 	}
-	r.Check(wait != nil && storeStopped != nil && core.Dominates(wait, storeStopped), "H1", core.FuncName(shutdown), "stopped-only-after-all-workers-exited", posOf(p, storeStopped),
+	r.Check(wait != nil && storeStopped != nil && core.Dominates(wait, storeStopped), rule, core.FuncName(shutdown), "stopped-only-after-all-workers-exited", posOf(p, storeStopped),
 		"Store(stopped) is dominated by a plain WaitGroup.Wait on the worker group", "the service can be declared stopped (and served again) while a worker of this run is still inside a callback: after the restart the same group can run on two workers at once")
 	var firstGo ssa.Instruction
 	for _, c := range core.Calls(a.Serve) {
@@ -1186,7 +1186,7 @@ func c01Restart(r *core.Run, a *svcAnchors, root []*ssa.Function) {
 			}
 		}
 	}
-	r.Check(fresh, "H1", core.FuncName(a.Serve), "fresh-registry-before-workers", p.Pos(a.Serve.Pos()), "every run starts with a new, empty group registry created before the first worker", "the group registry is not unconditionally re-created before the workers start: entries of the previous run would survive and their groups would never be scheduled again")
+	r.Check(fresh, rule, core.FuncName(a.Serve), "fresh-registry-before-workers", p.Pos(a.Serve.Pos()), "every run starts with a new, empty group registry created before the first worker", "the group registry is not unconditionally re-created before the workers start: entries of the previous run would survive and their groups would never be scheduled again")
 }
 
 // isFreshObject: v is a newly allocated object: an Alloc, or the result of a
